@@ -654,10 +654,10 @@ def run(ctx):
                     "the solid-angle / volume formulas in direction_isotropic, cyl_vertex_uniform, box_vertex_uniform are stated, not derived from a measure theory (Archimedes' hat-box theorem is cited)"]
     ctx.assumptions += ["np.random.random_sample/rand/uniform are i.i.d. uniform on [0,1) (the distributional clauses are facts about the map variates -> result)",
                         "theorems are over the real numbers; rounding is covered by the numeric correspondence and probes only",
-                        "exit points: soundness proved for the box (whenever it returns); totality of the box routine and the composition of the cylinder routine (caps, sorting, d_x = 0 and vertical branches) are validated by correspondence and probes only (partial)",
+                        "exit points: proved in full for the box (totality and soundness of the hand model); for the cylinder only the side-wall candidates of the generic branch are proved, the composition (caps, sorting, d_x = 0 and vertical branches relying on IEEE inf) is validated by correspondence and probes only (partial)",
                         "energies come from the user's get_energy callable (not modelled); interaction lengths are C14's",
                         "statistical tests are supplementary evidence (thorough tier), false-alarm probability < 1e-9 by DKW / Hoeffding"]
-    ctx.partial += ["exit_points_box_sound_partial", "exit_points_cyl_side_partial"]
+    ctx.partial += ["exit_points_cyl_side_partial"]
     try:
         files, side = gen_files(ctx.scratch)
         for k, v in files.items():
